@@ -229,10 +229,10 @@ fn run_huff(v: &[u64]) {
 // C14 / C15 for Wrapped: raw versus encoded representations
 // args: p (small profile), sa sb (item selectors), ta (prior clone_onto target selector)
 fn pre_wrapped(v: &[u64]) -> bool {
-    v[0] < 340 && v[1] < N_ITEMS && v[2] < N_ITEMS && v[3] < 4
+    v[0] < 346 && v[1] < N_ITEMS && v[2] < N_ITEMS && v[3] < 4
 }
 fn doms_wrapped() -> Vec<Vec<u64>> {
-    vec![vec![4, 9, 20, 41, 84, 170, 339], range(N_ITEMS), range(N_ITEMS), range(4)]
+    vec![vec![4, 9, 20, 41, 84, 170, 339, 340, 343], range(N_ITEMS), range(N_ITEMS), range(4)]
 }
 fn run_wrapped(v: &[u64]) {
     let prof = profile(v[0]);
@@ -594,6 +594,19 @@ fn run_ccm(v: &[u64]) {
         vassert!(r0.len() == 2 && r1.len() == 2, "VF:columns_coded.merge_len");
         vassert!(r0.get(0).into_owned() == c0 && r0.get(1).into_owned() == c1, "VF:columns_coded.merge_read");
         vassert!(r1.get(0).into_owned() == [2u8, 1] && r1.get(1).into_owned() == [6u8, 5, 5], "VF:columns_coded.merge_read");
+        // clear of Huffman columns: raw storage again, symbols never seen before are accepted
+        crate::section("VF:columns_coded.clear");
+        let mut t = R::default();
+        let _ = t.push(vec![c0.to_vec(), c1.to_vec()]);
+        t.clear();
+        let mut twin = R::default();
+        for row in [vec![vec![9u8, 9], vec![8u8]], vec![vec![1u8]], vec![vec![], vec![7u8, 7, 7], vec![3u8]]] {
+            let (i, j) = (t.push(row.clone()), twin.push(row.clone()));
+            vassert!(i == j, "VF:columns_coded.clear.differs_from_fresh");
+            for k in 0..row.len() {
+                vassert!(t.index(i).get(k).into_owned() == row[k], "VF:columns_coded.clear.differs_from_fresh");
+            }
+        }
     } else {
         type R = ColumnsRegion<CR>;
         let a: &[u8] = b"abc";
@@ -617,6 +630,38 @@ fn run_ccm(v: &[u64]) {
         vassert!(i0 == 0, "VF:columns_coded.merge_index");
         let r0 = m.index(i0);
         vassert!(r0.len() == 2 && r0.get(0) == a && r0.get(1) == b, "VF:columns_coded.merge_read");
+        // clear of coded columns: observationally fresh (no dictionary survives)
+        crate::section("VF:columns_coded.clear");
+        {
+            let mut t = R::default();
+            for _ in 0..4 {
+                let _ = t.push(vec![a, b]);
+            }
+            t.clear();
+            let mut twin = R::default();
+            let rows: [Vec<&[u8]>; 3] = [vec![b"\x00zz", b"\x00zz"], vec![a, b, b"\x01"], vec![b"\x01q"]];
+            for cycle in 0..2 {
+                for row in rows.iter() {
+                    let want = catch_unwind(AssertUnwindSafe(|| {
+                        let i = twin.push(row.clone());
+                        (i, (0..row.len()).map(|k| twin.index(i).get(k).to_vec()).collect::<Vec<_>>())
+                    }));
+                    let got = catch_unwind(AssertUnwindSafe(|| {
+                        let i = t.push(row.clone());
+                        (i, (0..row.len()).map(|k| t.index(i).get(k).to_vec()).collect::<Vec<_>>())
+                    }));
+                    match (want, got) {
+                        (Ok(w), Ok(g)) => vassert!(w == g, "VF:columns_coded.clear.differs_from_fresh"),
+                        (Ok(_), Err(_)) => vassert!(false, "VF:columns_coded.clear.push_refused_after_clear"),
+                        _ => {}
+                    }
+                }
+                if cycle == 0 {
+                    t.clear();
+                    twin = R::default();
+                }
+            }
+        }
         // reserve_regions on coded columns is invisible: same outcomes as a twin that never reserved, whatever columns the
         // reservation had to create
         crate::section("VF:columns_coded.reserve");
@@ -811,8 +856,8 @@ pub fn harnesses() -> Vec<H> {
             bound: "16 frequency profiles (1..4 symbols with counts 1..4, Fibonacci 10/16/21 symbols, 257/600 equiprobable u16) x all pairs of 12 item shapes (empty .. 24 symbols; every start/end bit offset; 0,1,2+ whole bytes) + third item in {empty, 8 symbols} x {one source; two generations; two sources over the same alphabet with different count shapes; three sources raw/empty/coded} x symbol outside the statistics; clear of a coded container before its first symbol", kani: false },
         H { name: "huffman_full", props: &["C06"], nargs: 6, pre: pre_huff, doms: doms_huff, run: run_huff, panic_ok: false,
             bound: "all 340 profiles over alphabets of 1..4 symbols with counts 1..4, Fibonacci-skewed 10..21 symbols (codes to 20 bits), 257/300/600 equiprobable u16 symbols x all pairs of 12 item shapes x third item in {empty, 8, 17 symbols} x 1-2 merge generations x outsider symbol (thorough tier)", kani: false },
-        H { name: "columns_coded_merge", props: &["C10"], nargs: 2, pre: pre_ccm, doms: doms_ccm, run: run_ccm, panic_ok: false,
-            bound: "ColumnsRegion<HuffmanContainer<u8>> and ColumnsRegion<CodecRegion<DictionaryCodec>>: merge_regions over a one-column and a two-column source in the orders [narrow, wide], [wide, narrow], [narrow, wide, narrow], [wide]; rows covered by the sources' statistics must be accepted and read back; dictionary columns: reserve_regions from the same source sets on an empty / one-row target, then four rows (incl. literals starting with bytes 0 and 1) compared with a twin that never reserved", kani: false },
+        H { name: "columns_coded_merge", props: &["C10", "C08"], nargs: 2, pre: pre_ccm, doms: doms_ccm, run: run_ccm, panic_ok: false,
+            bound: "ColumnsRegion<HuffmanContainer<u8>> and ColumnsRegion<CodecRegion<DictionaryCodec>>: merge_regions over a one-column and a two-column source in the orders [narrow, wide], [wide, narrow], [narrow, wide, narrow], [wide]; rows covered by the sources' statistics must be accepted and read back; dictionary columns: reserve_regions from the same source sets on an empty / one-row target, then four rows (incl. literals starting with bytes 0 and 1) compared with a twin that never reserved; clear of a populated coded-columns region, then rows compared with a default twin over two clear/refill cycles", kani: false },
         H { name: "huffman_after_clear", props: &["C06", "C08"], nargs: 2, pre: pre_hclear, doms: doms_hclear, run: run_hclear, panic_ok: false,
             bound: "HuffmanContainer<u16>: 50 occurrences of a foreign symbol pushed into a raw or coded container, clear, then exactly one of 7 profiles, merge: code cost equals the reference for that profile alone and the foreign symbol is refused", kani: false },
         H { name: "codec_clone", props: &["C09"], nargs: 4, pre: pre_hclone, doms: doms_hclone, run: run_hclone, panic_ok: false,
@@ -820,7 +865,7 @@ pub fn harnesses() -> Vec<H> {
         H { name: "coded_composites_merge", props: &["C10", "C01"], nargs: 2, pre: pre_ccomp, doms: doms_ccomp, run: run_ccomp, panic_ok: false,
             bound: "TupleABRegion<HuffmanContainer<u8>, CodecRegion<DictionaryCodec>> and ResultRegion<..>: merge_regions over 1 or 2 source regions, then rows covered by the passed sources' statistics must be accepted and read back", kani: false },
         H { name: "huffman_wrapped", props: &["C14", "C15"], nargs: 4, pre: pre_wrapped, doms: doms_wrapped, run: run_wrapped, panic_ok: false,
-            bound: "Wrapped items, raw versus Huffman-encoded under two different code books, 7 profiles x all pairs of 12 item shapes x 4 clone_onto targets: ==, partial_cmp, cmp against the owned vectors; into_owned / clone_onto / borrow_as; region-to-region push", kani: false },
+            bound: "Wrapped items, raw versus Huffman-encoded under two different code books, 9 profiles (incl. Fibonacci-skewed ones with 10 and 16 symbols: codes longer than a byte) x all pairs of 12 item shapes x 4 clone_onto targets: ==, partial_cmp, cmp against the owned vectors; into_owned / clone_onto / borrow_as; region-to-region push", kani: false },
         H { name: "huffman_forms", props: &["C20"], nargs: 2, pre: pre_hforms, doms: doms_hforms, run: run_hforms, panic_ok: false,
             bound: "HuffmanContainer<u16> raw and coded, 4 profiles: [B;N], &[B;N], Vec<B>, &Vec<B>, raw and encoded read items of another container versus &[B] on twins in the same state (indices, reads), and the next generation merged from each twin (index and read of a probe)", kani: false },
         H { name: "dictionary_quick", props: &["C07", "C01", "C02", "C04", "C08", "C10"], nargs: 7, pre: pre_dict, doms: doms_dict_quick, run: run_dict, panic_ok: false,
